@@ -55,7 +55,7 @@ def bkmRequirement (g : Drg) (prev : SGraph) (id : String) (c : Ctx) : Outcome C
 
 def bkmClosure (g : Drg) (prev : SGraph) (b : Bkm) (out : Ctx) : Outcome Ctx :=
   match foldCtx (bkmRequirement g prev) b.reqKnowledge out with
-  | .ok out1 => .ok (Ctx.set out1 b.var (.fn b.params b.body b.ty.ftype))
+  | .ok out1 => .ok (Ctx.set out1 b.var (.fn b.params b.body (b.ty.ftype g.items)))
   | .panic p => .panic p
   | .diverge => .diverge
 
@@ -84,7 +84,7 @@ def decisionValue (g : Drg) (env : Env) (prev : SGraph) (d : Decision)
     let k2 := g.serviceFns d.reqKnowledge k1
     match foldCtx (fun id c => dropName (callDecision g prev id sup input c)) d.reqDecisions k2 with
     | .ok k3 =>
-      coerceResult d.ty.ftype (evalBoxed env d.logic [decisionContext g d sup input k3])
+      coerceResult (d.ty.ftype g.items) (evalBoxed env d.logic [decisionContext g d sup input k3])
     | .panic p => .panic p
     | .diverge => .diverge
   | .panic p => .panic p
@@ -111,7 +111,7 @@ def inputBinding (g : Drg) (input : Ctx) (n : String) : List String → Option V
     | some v => some v
     | none =>
       match g.findInput id with
-      | some i => if i.name = n then some (i.ty.check i.name input) else none
+      | some i => if i.name = n then some (i.ty.check g.items i.name input) else none
       | none => none
 
 /-- a name among the required decision services: the service as a function -/
@@ -153,7 +153,7 @@ def serviceClosure (g : Drg) (prev : SGraph) (s : Service) (input out : Ctx) :
     match foldCtx (fun id c => dropName (callDecision g prev id sup evaluatedInput c)) s.encapsulated [] with
     | .ok c1 =>
       match outputLoop (fun id c => callDecision g prev id sup evaluatedInput c) s.output [] c1 with
-      | .ok (names, c2) => .ok (some s.var, serviceResult s.ty.ftype names c2 s.var out)
+      | .ok (names, c2) => .ok (some s.var, serviceResult (s.ty.ftype g.items) names c2 s.var out)
       | .panic p => .panic p
       | .diverge => .diverge
     | .panic p => .panic p
